@@ -169,13 +169,13 @@ theorem SubAck.D (k : Nat) (hagree : tablesAgree k SubAck.table = true) (fx : UI
   simp only [SubAck.view, SPacket.view, SubAck.fold_reasonString ps hok, (e _).1, (e _).2]
   simp
 
-theorem D_suback (k : Nat) (pid : UInt16) (ps : List PropOcc) (codes : Bytes)
-    (hl : (SPacket.suback k pid ps codes).Legal) :
+theorem D_suback_L (k : Nat) (pid : UInt16) (ps : List PropOcc) (codes : Bytes)
+    (hl : (SPacket.suback k pid ps codes).LegalL) :
     ∃ q, frameOutcome (SPacket.suback k pid ps codes).firstByte (SPacket.suback k pid ps codes).body = .pkt q
       ∧ q.kind = k ∧ q.view = (SPacket.suback k pid ps codes).view := by
   obtain ⟨hleg, hlen⟩ := hl
-  simp only [SPacket.legal, Bool.and_eq_true, Bool.or_eq_true, beq_iff_eq] at hleg
-  obtain ⟨⟨hk, hps⟩, hcodes⟩ := hleg
+  simp only [SPacket.legalL, Bool.and_eq_true, Bool.or_eq_true, beq_iff_eq] at hleg
+  obtain ⟨hk, hps⟩ := hleg
   have hne : (SPacket.suback k pid ps codes).body.length ≠ 0 := by simp [SPacket.body]
   rcases hk with rfl | rfl
   · obtain ⟨q, hu, hv⟩ := SubAck.D 9 SubAck.agree9 0x90 pid ps codes hps hlen
@@ -190,6 +190,16 @@ theorem D_suback (k : Nat) (pid : UInt16) (ps : List PropOcc) (codes : Bytes)
     have : (SPacket.suback 11 pid ps codes).firstByte = 0xb0 := by simp [SPacket.firstByte]
     rw [this]
     unfold frameOutcome; rw [if_neg hne, hd]; simp only [Packet.unmarshal, hu]
+
+theorem D_suback (k : Nat) (pid : UInt16) (ps : List PropOcc) (codes : Bytes)
+    (hl : (SPacket.suback k pid ps codes).Legal) :
+    ∃ q, frameOutcome (SPacket.suback k pid ps codes).firstByte (SPacket.suback k pid ps codes).body = .pkt q
+      ∧ q.kind = k ∧ q.view = (SPacket.suback k pid ps codes).view := by
+  apply D_suback_L k pid ps codes
+  obtain ⟨hleg, hlen⟩ := hl
+  refine ⟨?_, hlen⟩
+  simp only [SPacket.legal, SPacket.legalL, Bool.and_eq_true] at hleg ⊢
+  exact hleg.1
 
 theorem D_disconnect (form : Form) (reason : UInt8) (ps : List PropOcc)
     (hl : (SPacket.disconnect form reason ps).Legal) :
